@@ -117,7 +117,7 @@ def dataset_spec(draw, naming=None, dense=None, raw=None, curated=None, features
                  min_nc=2, max_nc=10, max_nt=6, max_ns=40, shanks=None, nan=False,
                  merge_ready=False, raw_backends=('flat', 'flat', 'npy', 'cbin'),
                  full_feature_rows=None, int_templates=None, probe_labels=False, min_nt=2,
-                 big_nt=None):
+                 big_nt=None, scales=None):
     ns = draw(st.integers(2, 12) | st.integers(2, max_ns))
     nt = draw(st.integers(min_nt, big_nt or max_nt))
     nc = draw(st.integers(min_nc, max_nc))
@@ -185,6 +185,13 @@ def dataset_spec(draw, naming=None, dense=None, raw=None, curated=None, features
                                            unique=True)))
         t.update(nloc=nloc, cols=cols, zero_cols=zero_cols,
                  cols_dtype=draw(st.sampled_from(['int32', 'int64'])))
+        if scales:
+            # stored channels at the edge of the footprint: 1e-4 of the usual size, not zero
+            t['faint_cols'] = [draw(st.lists(st.integers(0, nloc - 1), max_size=nloc - 1,
+                                             unique=True)) for _ in range(nt)]
+    if scales and not t['int']:
+        # physical units of the stored waveforms (arbitrary units, volts, microvolts ...)
+        t['scale'] = draw(st.sampled_from(list(scales)))
     # KS2 also writes templates_ind.npy (with an s), which the loader deliberately ignores
     t['ks2_templates_ind'] = bool(is_dense and draw(st.booleans()))
     spec['templates'] = t
@@ -346,10 +353,15 @@ def build(spec, dirpath, write_params=True):
                     data[k, :, j] = 0
             if not np.any(data[k, :, real[0]] != 0):
                 data[k, 0, real[0]] = 2.0
+            for j in (t.get('faint_cols') or [[]] * nt)[k]:
+                if j != real[0]:
+                    data[k, :, j] *= 1e-4
         T.tcols = np.array(t['cols'], dtype=t['cols_dtype'])
         save('template_ind.npy', T.tcols)
     else:
         T.tcols = None
+    if t.get('scale'):
+        data = (data.astype(np.float64) * t['scale']).astype(t['dtype'])
     T.nan_template = None
     if t.get('nan_template'):
         k = nt - 1 if (nt - 1) not in spec['spike_templates'] else None
@@ -370,7 +382,11 @@ def build(spec, dirpath, write_params=True):
     if t.get('ks2_templates_ind') and not alf:
         np.save(d / 'templates_ind.npy', np.tile(np.arange(nc), (nt, 1)).astype(np.float64))
     if spec['wm']:
-        T.wm = np.eye(nc) + 0.1 * rs.randn(nc, nc)
+        if spec.get('wm_scale'):
+            # a well-conditioned matrix of any size and overall scale
+            T.wm = spec['wm_scale'] * (np.eye(nc) + 0.1 / np.sqrt(nc) * rs.randn(nc, nc))
+        else:
+            T.wm = np.eye(nc) + 0.1 * rs.randn(nc, nc)
         np.save(d / 'whitening_mat.npy', T.wm)
         if spec['wmi_file']:
             T.wmi_file = np.linalg.inv(T.wm) + 0.0
@@ -529,6 +545,20 @@ def large_spec(ns, seed=1, nt=5, nc=8, nsw=4):
                 'ind_dtype': 'uint32', 'dtype': 'float32', 'zero_positive': True,
                 'rows_dtype': 'int64'},
         'tf': None, 'attrs': [], 'nan': False, 'raw': None}
+
+
+def many_channels_spec(nc, nt=4, ns=60, nsw=5, seed=2, wm_scale=None, shanks=False):
+    """Hand-made: a probe with many channels (64 and more; 384-channel probes are common)."""
+    rs = np.random.RandomState(seed)
+    spec = large_spec(ns, seed=seed, nt=nt, nc=nc, nsw=nsw)
+    spec['n_raw'] = 10 * ns
+    spec['pos'] = [[16.0 * (i % 4) + 8 * ((i // 4) % 2), 20.0 * (i // 4)] for i in range(nc)]
+    spec['spike_templates'] = rs.randint(0, nt, size=ns).tolist()
+    spec['pcf'] = None
+    spec['wm_scale'] = wm_scale
+    if shanks:
+        spec['shanks'] = [(4 * i) // nc for i in range(nc)]
+    return spec
 
 
 def large_curated_spec(nt=300, ns=1500, nc=4, nsw=3, seed=3):
